@@ -554,6 +554,20 @@ func walkSwap(p *load.Program, fn *ssa.Function, start *ssa.BasicBlock, e ssa.Va
 		if consumed {
 			continue
 		}
+		// A second nil test of the very same SSA value: on this walk the value
+		// is known non-nil, so only the non-nil successor is feasible
+		// (if err == nil && … { } …; if err != nil && err != io.EOF { … }).
+		if ifi, ok := b.Instrs[len(b.Instrs)-1].(*ssa.If); ok {
+			if bo, ok := ifi.Cond.(*ssa.BinOp); ok && (bo.Op == token.EQL || bo.Op == token.NEQ) &&
+				(bo.X == e && ssau.IsNilConst(bo.Y) || bo.Y == e && ssau.IsNilConst(bo.X)) {
+				if bo.Op == token.NEQ {
+					work = append(work, b.Succs[0])
+				} else {
+					work = append(work, b.Succs[1])
+				}
+				continue
+			}
+		}
 		for _, s := range b.Succs {
 			work = append(work, s)
 		}
